@@ -233,6 +233,15 @@ def main():
         else:
             i += 1
     seed = int(os.environ.get("VERIF_SEED", "1"))
+    replay_payload = None
+    if replay:
+        # replay of a recorded violation: the same seed and tier, the whole check again on the CURRENT tree;
+        # afterwards the recorded failing line / message is looked up among the failures of this run
+        replay_payload = json.load(open(replay))
+        seed = int(replay_payload.get("seed", seed))
+        hc = replay_payload.get("harness_cmd") or []
+        if "--tier" in hc:
+            tier = hc[hc.index("--tier") + 1]
     if pid not in props.PROPS:
         print("unknown property %s" % pid)
         return 2
@@ -458,6 +467,23 @@ def main():
     os.makedirs(evdir, exist_ok=True)
     json.dump(ev, open(os.path.join(evdir, "%s.json" % pid), "w"), indent=1, sort_keys=True)
 
+    if replay_payload is not None:
+        want_line = (replay_payload.get("trace_line") or "").split(" => ")[0]
+        want_msg = replay_payload.get("message", "")
+        again = False
+        for kind, path, found in violations:
+            try:
+                d = json.load(open(path))
+            except Exception:
+                continue
+            if (want_line and (d.get("trace_line") or "").split(" => ")[0] == want_line) or (want_msg and d.get("message") == want_msg) \
+                    or (not want_line and d.get("kind") == replay_payload.get("kind")):
+                again = True
+        print("REPLAY file=%s reproduced=%s (violations in this run: %d)" % (replay, "yes" if again else "no", len(violations)))
+        if again:
+            print("VIOLATION property=%s replay=%s" % (pid, replay))
+            return 1
+        return 0
     if violations:
         for kind, path, found in violations[:5]:
             print("VIOLATION property=%s replay=%s%s" % (pid, path, "" if found else " no-failing-input-found"))
